@@ -52,7 +52,8 @@ theorem trPhase_rolling (s : CS) (w : CWl) (sub : Sub) (hp : s.ro.phase = .progr
 
 theorem trPhase_fin (s : CS) (w : CWl) (sub : Sub) (hp : s.ro.phase = .progressing) (hr : s.ro.reason = .finalising)
     (hs : s.ro.sub = some sub) :
-    trPhase s w = (netCore s sub w false && finBr s sub w && sub.canaryRev == w.updateRevision) := by
+    trPhase s w = (netCore s sub w false && finBr s sub w && sub.canaryRev == w.updateRevision &&
+      decide (sub.curIdx ≤ s.ro.steps.length)) := by
   unfold trPhase; rw [hp, hr]; dsimp only; rw [hs]
 
 theorem trPhase_completed (s : CS) (w : CWl) (hp : s.ro.phase = .progressing) (hr : s.ro.reason = .completed) :
